@@ -295,6 +295,14 @@ def gen_template_tokens(rng, env, src_kind):
                 out += [rng.choice([A, NUM])]
         if rng.random() < 0.3:
             out += [SEMI, A]
+    # S runs: white space - dropped comment - white space
+    if src_kind == 'L':
+        i = 0
+        while i < len(out):
+            if out[i] == S and rng.random() < 0.3:
+                out.insert(i, rng.choice([S, 13]))
+                i += 1
+            i += 1
     # damage
     for _ in range(rng.choice([0, 0, 0, 1, 1, 2])):
         if not out:
@@ -498,6 +506,9 @@ def gen_tokens(rng, src_kind, pool=None):
             syms.append(rng.choice(OTHER))
         elif r < 0.80:
             syms.append(9)
+            # S tokens in a row (what a tokenizer that drops comments leaves behind: `a /*c*/ , b`)
+            while src_kind == 'L' and rng.random() < 0.35:
+                syms.append(rng.choice([9, 13]))
         elif r < 0.90:
             syms.append(10)
         elif r < 0.94 and src_kind == 'L':
